@@ -200,6 +200,10 @@ func build(c Case) (adapter, *odict.Dict, *Verdict0) {
 		switch c.Ctor {
 		case "make":
 			return ruleAd{schema.MakeRuleASTNodes(2)}, ref, nil
+		case "make0":
+			return ruleAd{schema.MakeRuleASTNodes(0)}, ref, nil
+		case "make1":
+			return ruleAd{schema.MakeRuleASTNodes(1)}, ref, nil
 		case "new":
 			data := map[string]schema.RuleASTNode{}
 			for _, k := range initKeys {
@@ -229,6 +233,9 @@ func oracleN(c Case, sparse bool) *ev.Verdict {
 	if c.Container == "set" {
 		return oracleSet(c)
 	}
+	// a bystander: a second container made the same way before the first operation. Whatever happens to the
+	// container under test, the bystander stays what it was (containers share nothing).
+	by, byRef, _ := build(c)
 	a, ref, _ := build(c)
 	if a == nil {
 		return ev.V("harness:bad-container", "%s", c.Container)
@@ -236,6 +243,10 @@ func oracleN(c Case, sparse bool) *ev.Verdict {
 	if v := compare(c, -1, a, ref); v != nil {
 		return v
 	}
+	defer func() {
+		_ = by
+		_ = byRef
+	}()
 	for i, op := range c.Ops {
 		var v *ev.Verdict
 		func() {
@@ -256,6 +267,18 @@ func oracleN(c Case, sparse bool) *ev.Verdict {
 			continue
 		}
 		if v := compare(c, i, a, ref); v != nil {
+			return v
+		}
+	}
+	if v := compare(c, -1, by, byRef); v != nil {
+		v.Sig = "bystander:" + v.Sig
+		v.Detail = "a second container made the same way and never touched: " + v.Detail
+		return v
+	}
+	if later, laterRef, _ := build(c); later != nil {
+		if v := compare(c, -1, later, laterRef); v != nil {
+			v.Sig = "made-later:" + v.Sig
+			v.Detail = "a container made the same way after the operations: " + v.Detail
 			return v
 		}
 	}
@@ -655,7 +678,7 @@ func genCase(t *rapid.T) Case {
 		return c
 	}
 	if cont == "rule" {
-		c.Ctor = rapid.SampledFrom([]string{"zero", "make", "new"}).Draw(t, "ctor")
+		c.Ctor = rapid.SampledFrom([]string{"zero", "make", "new", "make0", "make1"}).Draw(t, "ctor")
 		if c.Ctor == "new" {
 			c.Init = rapid.SliceOfNDistinct(key, 0, 4, func(s string) string { return s }).Draw(t, "init")
 		}
@@ -735,7 +758,7 @@ func genWide(t *rapid.T) Case {
 		return c
 	}
 	if cont == "rule" {
-		c.Ctor = rapid.SampledFrom([]string{"zero", "make", "new"}).Draw(t, "ctor")
+		c.Ctor = rapid.SampledFrom([]string{"zero", "make", "new", "make0", "make1"}).Draw(t, "ctor")
 		if c.Ctor == "new" {
 			c.Init = perm("init")[:rapid.IntRange(0, n).Draw(t, "ninit")]
 		}
